@@ -562,3 +562,26 @@ def c04_rows_sym(ctx, shape, method):
         ctx.ensure(f"{name}: first block row is [W M_f, -div^T, 0] with a diagonal flux block", and_(eq(a[:nf, nf:nf + nc], -D.T), eq(a[:nf, nf + nc:], np.zeros((nf, 1))),
                                                                                                  eq(a[:nf, :nf] - np.diag(np.diag(a[:nf, :nf])), np.zeros((nf, nf)))))
     ctx.ensure("every column of div sums to zero (=> the multiplier vanishes for a zero-mean mass difference)", eq(D.sum(axis=0), np.zeros(nf)))
+
+
+@ob("C04.cost_def", cases=lambda tier: [dict(shape=s, l1=l.name, weighted=wt) for s in ([(3,), (2, 2)] if tier == "quick" else [(3,), (2, 2), (3, 2), (2, 1, 2)]) for l in L1_MODES for wt in (False, True)],
+    mods=["darsia.measure.wasserstein", "darsia.utils.fv"], stubs=STEP_STUBS, funcs=["darsia.measure.wasserstein:VariationalWassersteinDistance.l1_dissipation",
+    "darsia.measure.wasserstein:VariationalWassersteinDistance.transport_density", "darsia.measure.wasserstein:VariationalWassersteinDistance.cell_weighted_flux"],
+    samples=(2, 4), budget={"timeout_ms": 20000, "decide_ms": 1500, "arith_solver": 2},
+    cite="the reported distance is the transport cost of exactly that flux, and the auxiliary outputs (cell fluxes, transport density ...) derive from the same solution",
+    note="the two public faces of the cost agree: l1_dissipation(flux) is the cell-volume-weighted integral of transport_density(flux), for every flux, every L1 mode and every positive "
+         "cell weight (after seed C04_g: a fast path of l1_dissipation that ignored the weight)")
+def c04_cost_def(ctx, shape, l1, weighted):
+    grid, h = grid_of(shape)
+    dim = len(shape)
+    wimg = None
+    if weighted:
+        cw = ctx.array("cw", shape, pos=True, sample=(0.5, 2.0))
+        wimg = darsia.Image(cw, space_dim=dim, scalar=True, dimensions=[shape[k] * h[k] for k in range(dim)])
+    w = solver("newton", grid, base_options(l1_mode=W.L1Mode[l1], formulation="full"), wimg)
+    q = ctx.array("q", (int(grid.num_faces),), sample=(-2.0, 2.0))
+    cost = w.l1_dissipation(q)
+    td = w.transport_density(q, flatten=False)
+    vol = float(np.prod(h))
+    ctx.ensure("l1_dissipation(flux) == sum over cells of cell volume * transport_density(flux)", eq(cost, vol * np.sum(td)))
+    ctx.ensure("flattened transport density is the Fortran ravel of the cell array", eq(w.transport_density(q, flatten=True), np.ravel(td, "F")))
